@@ -180,6 +180,8 @@ type Deco struct {
 	NoTTL bool
 	// Calls counts engine calls by name.
 	Calls map[string]int
+	// OnCommitDone runs after a Commit returned.
+	OnCommitDone func(b *BatchRec)
 	// IterFault fails the n-th Iter call.
 	IterFault func(n int) error
 	iters     int
@@ -361,6 +363,9 @@ func (b *decoBatch) Commit(ctx context.Context) error {
 		err = storage.NewErrUncertainResult(ErrInjected)
 	}
 	b.rec.Done, b.rec.Err = true, err
+	if b.d.OnCommitDone != nil {
+		b.d.OnCommitDone(b.rec)
+	}
 	return err
 }
 
